@@ -94,6 +94,12 @@ class Table:
         tb = self.db.unit_to_unit_info[u].tobase
         if not getattr(tb, "__has_conversion__", True):
             return F(0)
+        if not hasattr(tb, "__b__") or not hasattr(tb, "__c__"):
+            # no written literals on the closure: read the precision off the factor it computes
+            try:
+                return max(half_rel(float(tb(1.0)) - float(tb(0.0))), F(1, 10**5))  # (a quotient b/c hides how b was written)
+            except Exception:
+                return F(1, 10**9)
         return half_rel(tb.__b__) + half_rel(tb.__c__)
 
     def resolve(self, tok, own=False, den=False):
@@ -262,7 +268,7 @@ def run(ctx):
                 rel_real = abs(real_row - real_parts) / abs(real_parts)
                 if rel > tol or rel_real > float(tol) + 1e-12:
                     part.violation(
-                        "C06:row %s = %s : factor=%r" % (s, text, float(f)),
+                        "C06:row %s = %s : factor=%.12g" % (s, text, float(f)),
                         {"row_factor": float(f), "composition_of_parts": float(p), "relative_error": float(rel), "tolerance_from_written_precision": float(tol), "by_real_conversions": [real_row, real_parts]},
                         "from mc import worlds\nfrom barril.units import Scalar\nwith worlds.world('posc') as db:\n    import mc.props.c06 as c06\n    t = c06.Table(db)\n"
                         "    row = c06.slope_by_conversion(db, %r)\n    parts = 1.0\n    for (mult, atom, exp), sg in t.decompose(%r):\n        parts *= (float(mult) * c06.slope_by_conversion(db, atom) ** exp) ** sg\n"
@@ -298,7 +304,7 @@ def run(ctx):
                 rel = abs(f - p) / abs(p)
                 if rel > tol:
                     part.violation(
-                        "C06:prefixed %s = 1e%d x %s : factor=%r" % (s, e, o, float(f)),
+                        "C06:prefixed %s = 1e%d x %s : factor=%.12g" % (s, e, o, float(f)),
                         {"row": s, "name": db.unit_to_unit_info[s].name, "row_factor": float(f), "prefix_times_base_row": float(p), "relative_error": float(rel)},
                         "from mc import worlds\nwith worlds.world('posc') as db:\n    import mc.props.c06 as c06\n    a, b = c06.slope_by_conversion(db, %r), 1e%d * c06.slope_by_conversion(db, %r)\n    print(a, b)\n    assert abs(a - b) <= %r * abs(b)\n" % (s, e, o, float(tol) + 1e-12),
                     )
